@@ -838,11 +838,41 @@ func ruleNumberedMeansReferenced(w *World, r *Report) {
 		return
 	}
 	n := 0
+	type anchor struct {
+		fn *ssa.Function
+		at ssa.Instruction
+	}
+	var anchors []anchor
 	for _, st := range w.storesToField(fnT, "Index") {
 		fn := st.Parent()
 		if fn.Pkg != nil && fn.Pkg.Pkg == w.TPkg("extension/ast") {
 			continue
 		}
+		// a numbering step extracted into a helper that hands back the number (an integer result): the obligation
+		// moves to every call site of the helper — the caller must produce the reference node after the call
+		if res := fn.Signature.Results(); res.Len() == 1 && isInteger(res.At(0).Type()) {
+			moved := false
+			for _, caller := range w.CG().In[fn] {
+				if !w.InModule(caller) {
+					continue
+				}
+				for _, b := range caller.Blocks {
+					for _, ins := range b.Instrs {
+						if c, ok := ins.(*ssa.Call); ok && c.Common().StaticCallee() == fn {
+							anchors = append(anchors, anchor{caller, c})
+							moved = true
+						}
+					}
+				}
+			}
+			if moved {
+				continue
+			}
+		}
+		anchors = append(anchors, anchor{fn, st})
+	}
+	for _, an := range anchors {
+		fn, st := an.fn, an.at
 		n++
 		key := w.FnKey(fn) + ": returns after numbering"
 		bad := ""
@@ -1135,6 +1165,24 @@ func ruleReturnedReferenceRegistered(w *World, r *Report) {
 						}
 					}
 				}
+				// or through a helper that registers its parameter on every path
+				for _, bb := range fn.Blocks {
+					for _, ins := range bb.Instrs {
+						hc, ok := ins.(*ssa.Call)
+						if !ok || !(bb == b || bb.Dominates(b)) {
+							continue
+						}
+						cal := hc.Common().StaticCallee()
+						if cal == nil || !w.InModule(cal) {
+							continue
+						}
+						for ai, a := range hc.Common().Args {
+							if a == ssa.Value(c) && ai < len(cal.Params) && w.registersFootnoteLinkParam(cal, ai) {
+								registered = true
+							}
+						}
+					}
+				}
 				if registered {
 					r.OK(key, w.InstrPos(ret), "dominated by Set(key, append(list, node))")
 				} else {
@@ -1144,4 +1192,66 @@ func ruleReturnedReferenceRegistered(w *World, r *Report) {
 		}
 	}
 	r.Expect("returns of a new FootnoteLink", n, 1)
+}
+
+// registersFootnoteLinkParam: every return of fn is dominated by a context Set whose value is an append of the idx-th
+// parameter (the registration step extracted into a helper).
+func (w *World) registersFootnoteLinkParam(fn *ssa.Function, idx int) bool {
+	if fn.Blocks == nil || idx >= len(fn.Params) {
+		return false
+	}
+	p := ssa.Value(fn.Params[idx])
+	var regBlocks []*ssa.BasicBlock
+	for _, bb := range fn.Blocks {
+		for _, ins := range bb.Instrs {
+			sc, ok := ins.(ssa.CallInstruction)
+			if !ok {
+				continue
+			}
+			g, op := ctxKeyOf(sc)
+			if g == nil || op != "Set" {
+				continue
+			}
+			ap, ok := stripMakeIface(sc.Common().Args[1]).(*ssa.Call)
+			if !ok || builtinName(ap.Common()) != "append" || len(ap.Common().Args) != 2 {
+				continue
+			}
+			holds := false
+			operandsClosure(ap.Common().Args[1], func(x ssa.Value) bool {
+				if al, ok := x.(*ssa.Alloc); ok {
+					for _, ref := range referrersOf(al) {
+						if ia, ok := ref.(*ssa.IndexAddr); ok {
+							for _, r2 := range referrersOf(ia) {
+								if st, ok := r2.(*ssa.Store); ok && st.Val == p {
+									holds = true
+								}
+							}
+						}
+					}
+				}
+				return !holds
+			})
+			if holds {
+				regBlocks = append(regBlocks, bb)
+			}
+		}
+	}
+	if len(regBlocks) == 0 {
+		return false
+	}
+	for _, b := range fn.Blocks {
+		if _, ok := b.Instrs[len(b.Instrs)-1].(*ssa.Return); !ok {
+			continue
+		}
+		dom := false
+		for _, rb := range regBlocks {
+			if rb == b || rb.Dominates(b) {
+				dom = true
+			}
+		}
+		if !dom {
+			return false
+		}
+	}
+	return true
 }
